@@ -80,6 +80,20 @@ def plan(tier, seed):
         P.add("reuse", leaves=leaves, shape=shape, base=pick(rng, ["Add", "Sub", "Compose",
                                                                    "Scale", "Hstack", "Vstack"]),
               order=[int(v) for v in rng.permutation(6)], fortran=bool(rng.random() < 0.3))
+    # a scalar applied directly to a leaf that holds an array (a * M, M * a, -M, M - M2), built
+    # BEFORE the caller refreshes that array in place: the scaled operator still is a times
+    # the leaf as the leaf is now (every leaf holds its array by reference)
+    rngr = P.rng("scaled-refresh")
+    for i in range(60 if tier == "quick" else 800):
+        kind = pick(rngr, ["Multiply", "Multiply", "MatMul", "RightMatMul", "ConvolveData",
+                           "ConvolveFilter"])
+        d = None
+        while d is None:
+            d = lops.gen_leaf(rngr, kind, None, 5)
+            if d is not None and (d["op"] == "Conj" or (
+                    d["op"] == "Multiply" and d.get("mkind") != "array")):
+                d = None
+        P.add("scaled-refresh", desc=d, a=lops._scalar(rngr))
     rng = P.rng("misfit")
     nm = 200 if tier == "quick" else 3000
     for i in range(nm):
@@ -360,8 +374,51 @@ def run_case(case):
     return res
 
 
+def run_refresh(case, rng):
+    from vf.monitors import linop_mon
+    desc = case["desc"]
+    a = lops.scalar_value(case["a"])
+    sig = "scaled-refresh|" + desc["op"]
+    wit = {"desc": desc, "a": case["a"]}
+    try:
+        Lf = lops.build(desc)
+        L2 = lops.build(dict(desc, aseed=int(desc.get("aseed", 0)) + 1)) if "aseed" in desc \
+            else lops.build(desc)
+        built = {"a * L": a * Lf, "L * a": Lf * a, "-L": -Lf, "L - L2": Lf - L2,
+                 "(a * L).H": (a * Lf).H}
+    except Exception as e:
+        return inconclusive("constructor raised %s" % type(e).__name__, sig="ctor-raised")
+    caps = [(n_, v_) for n_, v_ in linop_mon.captured_tree(Lf).values()
+            if v_.flags.writeable and v_.dtype.kind in "fc" and v_.size]
+    if not caps:
+        return inconclusive("leaf captured no writeable array", sig="no-captured-array")
+    for n_, v_ in caps:
+        v_.reshape(-1)[::2] *= v_.dtype.type(-0.6)
+        v_.reshape(-1)[1::2] *= v_.dtype.type(1.7)
+    x = crandn(rng, tuple(Lf.ishape), np.complex128)
+    y = crandn(rng, tuple(Lf.oshape), np.complex128)
+    Lx = np.asarray(Lf(x))
+    want = {"a * L": a * Lx, "L * a": np.asarray(Lf(np.asarray(a * x))), "-L": -Lx,
+            "L - L2": Lx - np.asarray(L2(x)), "(a * L).H": np.conj(a) * np.asarray(Lf.H(y))}
+    checks = 0
+    for nm_, op in built.items():
+        got = np.asarray(op(y if nm_.endswith(".H") else x))
+        ref = want[nm_]
+        checks += 1
+        sc = nrm(ref) + 1e-3 * (nrm(x) + nrm(y)) + 1e-300
+        if got.shape != ref.shape or not nrm(got - ref) <= 1e-10 * sc:
+            return violated(sig, "%s was built before the leaf's array (%s) was refreshed in "
+                            "place and no longer equals the expression of its parts: rel %.3g"
+                            % (nm_, ", ".join(n for n, _ in caps)[:80],
+                               nrm(got - ref) / sc if got.shape == ref.shape else np.inf), wit,
+                            mech="scaled-refresh")
+    return held(sig, {"forms": checks}, checks, True)
+
+
 def run_one(case):
     rng = rng_for(case)
+    if case["gen"] == "scaled-refresh":
+        return run_refresh(case, rng)
     if case["gen"] == "reuse":
         return run_reuse(case)
     if case["gen"] in ("misfit", "misfit-O"):
